@@ -17,7 +17,7 @@ def _extra(ctx):
                 if key in src:
                     ops[key.strip()] += 1
     exh = sum(1 for c in hist if c["stratum"].startswith("exhaustive"))
-    cov = dict(histories=len(hist), steps=steps, api_steps=sum(1 for c in hist for st in c["payload"][1:] if not st.startswith("- ## ")),
+    cov = dict(histories=len(hist), relational_histories=sum(1 for c in hist if c["stratum"] in ("rel", "corpus-rel")), steps=steps, api_steps=sum(1 for c in hist for st in c["payload"][1:] if not st.startswith("- ## ")),
                histories_with_tainted_values=sum(1 for c in hist if c["payload"][0] != "strict"),
                operator_histogram=dict(ops.most_common()),
                live_values_sharing_a_backing_array_with_spare_capacity=dict(share),
@@ -29,14 +29,19 @@ def _extra(ctx):
 
 
 PROP = dict(
-    quick_n=2000, thorough_n=40000,
+    quick_n=1500, thorough_n=40000,
     trusted_base=["heap model of Go slices (Arrai/C03/Heap.lean): `append` writes in place iff len+n <= cap, otherwise moves to a fresh "
                   "array whose capacity an oracle chooses; re-slicing, copy, make, indexed store as in the Go specification",
                   "frozen's persistent sets/maps and everything that is not a []rune/[]byte/[]Value payload are modelled as immutable "
                   "denotations (HVal.other); array ITEMS are held as denotations too (a slice-backed item inside an array is not "
                   "followed through the heap - justified by the theorem itself, checked by the correspondence run)",
                   "the results computed through the set builder (Concatenate, Where/Map on strings and bytes, joins, Difference) are "
-                  "modelled as `asString/asBytes/asArray` of the specified members into a fresh array"],
+                  "modelled as `asString/asBytes/asArray` of the specified members into a fresh array",
+                  "relations (Arrai/C03/Rel.lean): heading (NamesSlice) and rows (Values) are slices in the same heap; the valueProjector `p`, "
+                  "frozen's row set, the groupBy index cache and attrMap are immutable denotations; nest/unnest/rank/=> are modelled as "
+                  "relationBuilder over the specified tuples (fresh heading, one fresh row per tuple); JoinCommonOnly's rows as fresh copies of the keys",
+                  "facts: a callee is `fresh` when every return statement returns make/composite literal/append(make..)/a local defined only so "
+                  "(syntactic, go/ast; the fields inside a returned composite literal are not followed)"],
     assumptions=["histories of 3-15 steps over 1-3 roots; sequences of length <= 8; array items are numbers (plus the sequences //seq.split makes)",
                  "`loose` histories (a step whose RESULT is wrong for reasons of C01/C02: Bytes.Without not at the end, bytes with holes, "
                  "String/Bytes.with away from the ends) are checked for stability and program/step agreement only, not for their values",
@@ -44,7 +49,13 @@ PROP = dict(
                  "representation has no leading/trailing/inner hole cells (the model mirrors the representation)",
                  "histshare cases are informational: two live values sharing a backing array with spare capacity is the PRECONDITION of the "
                  "repaired defect, still present (harmlessly) after the repair; they are counted as drift, never as violations"],
-    level_text="Proof: Lean theorems over an explicit heap of Go backing arrays - every transliterated operation (String/Bytes.with as repaired, "
+    level_text="Proof: Lean theorems over an explicit heap of Go backing arrays (payloads of strings/bytes/arrays AND headings/rows of relations) - "
+               "for relations: the eight join operators (Joiner, Relation.Join, positionalRelation.Join with JoinKeepEverything/joinOneSide/JoinCommonOnly/"
+               "JoinIfCommonExist, projectedValues.values), With/Without/Where/Union and builder-made results store only into arrays they allocated "
+               "(rel_step_writes_only_fresh, rel_step_frame), so for ALL histories of such operations - joins on results of earlier joins, the same parent "
+               "joined repeatedly - every relation denotes after any continuation what it denoted when made (C03_rel_history); the heading append as found "
+               "and a values() that returns the row itself are shown to break this by concrete histories (rel_alias_heading_before_repair, "
+               "rel_alias_rows_if_values_returns_row). For sequences: every transliterated operation (String/Bytes.with as repaired, "
                "Without, Where, Array.withItem/Without/Where/clone, NewOffset*, >>, n\\, |, ++, joins, //seq helpers, array patterns) stores only "
                "into arrays it allocated itself (step_writes_only_fresh), hence keeps the snapshot of every live value (step_frame); for ALL branching "
                "histories and ALL capacity oracles every value reads the same after any continuation as when it was created (C03_history, C03_let, "
@@ -60,7 +71,11 @@ PROP = dict(
            "rel.Array.withItem", "rel.Array.With", "rel.Array.Without", "rel.Array.Where", "rel.Array.clone",
            "rel.NewOffsetArray", "rel.NewOffsetString", "rel.NewOffsetBytes", "rel.asString", "rel.asBytes", "rel.asArray",
            "rel.OffsetExpr.Eval", "rel.SeqArrowExpr.Eval", "rel.Concatenate", "rel.Union", "rel.ArrayPattern.Bind",
-           "rel.projectedValues.values", "rel.positionalRelation.JoinKeepEverything",
+           "rel.projectedValues.values", "rel.positionalRelation.JoinKeepEverything", "rel.positionalRelation.Join",
+           "rel.positionalRelation.JoinCommonOnly", "rel.positionalRelation.JoinIfCommonExist", "rel.joinOneSide", "rel.createMode",
+           "rel.Relation.Join", "rel.Relation.With", "rel.Relation.Without", "rel.Relation.Where", "rel.Relation.tupleToValues",
+           "rel.Relation.getIndices", "rel.Joiner", "rel.NamesSlice.minus", "rel.NamesSlice.intersect", "rel.valueProjector.compose",
+           "rel.valueProjector.mapper", "rel.relationBuilder.Add", "rel.relationBuilder.Finish", "rel.TupleOrderedNames",
            "syntax.arraySub", "syntax.arraySplit", "syntax.arrayJoin", "syntax.stdSeqRepeat", "syntax.stdSeqTrimPrefix",
            "syntax.stdSeqTrimSuffix", "syntax.stdSeqConcat", "syntax.stdSeqSub", "syntax.stdSeqSplit"],
 )
